@@ -20,6 +20,7 @@ LEVEL_TEXT = ("Every clause of the statement is a postcondition evaluated on eve
 LEVEL_NOTE = "postconditions are those of the statement only; no assumption on which counters are raised beyond 'at most one per row, only the key's'"
 BUDGET = {"quick": 75, "thorough": 360}
 SHARDS = {"quick": 1, "thorough": 16}
+BOUNDSCHECK = True
 UMAX = {"log16": 65535, "log8": 255}
 _PROBERS = {}
 
